@@ -352,7 +352,9 @@ class Exec:
             if not m['flags'] & 0x8000:
                 continue
             an_ids = set()
+            an_raw = set()        # with the owner of NSEC records: two services of one host each own an NSEC record with the same content
             for r in m['an']:
+                an_raw.add(rp.ident_of_wire_rr(r))
                 ident = N(rp.ident_of_wire_rr(r))
                 if ident is None:
                     raise Violation('reply carries a record of a foreign type', dict(det, type=r['type']), tag='foreign-type')
@@ -370,7 +372,7 @@ class Exec:
                 if allowed[ident] != r['ttl']:
                     raise Violation('additional record carries a TTL other than the configured one',
                                     dict(det, additional=ident, ttl=r['ttl'], want=allowed[ident]), tag='additional-ttl')
-                if ident in an_ids:
+                if rp.ident_of_wire_rr(r) in an_raw:
                     raise Violation('additional record repeats an answer of the same message', dict(det, ident=ident),
                                     tag='additional-repeats-answer')
         missing = [i for i in exp if i not in got and i not in dont_care]
